@@ -141,26 +141,40 @@ def run(prop, tier):
                         r1 = P.run_sim(ps2, store_results=False)
                         rid = pair(records, index, rid, dict(model=name, intervention="parameter scenario (%s) on %s" % (interp, what), par=tname, Y=Y), r1, base, Y)
                         npairs += 1
-        # --- extending the end year does not change earlier outputs
+        # --- extending the end year does not change earlier outputs (plain, and with a linear parameter scenario whose last point lies
+        #     between the two end years: the short run ramps towards a value it never reaches)
         e0 = float(P.settings.sim_end)
         for ext in (3.0, 2 * dt + dt / 3):
-            P.settings.update_time_vector(end=e0 + ext)
-            rl = P.run_sim(ps, store_results=False)
-            P.settings.update_time_vector(end=e0)
-            a = outputs(base, 0)
-            n = len(base.model.t)
-            b = {k: v[:n] for k, v in outputs(rl, 0).items()}
-            for key in sorted(a):
-                x, y = a[key], b.get(key, np.array([]))
-                m_ = min(len(x), len(y))
-                if key.startswith(("L:", "P:")):
-                    m_ -= 1
-                x, y = x[:m_], y[:m_]
-                ok = np.isfinite(x) & np.isfinite(y)
-                records.append(dict(id=rid, tol="1e-12", a=FX.fixseq(x[ok]), b=FX.fixseq(y[ok])))
-                index[rid] = dict(label=dict(model=name, intervention="end year extended by %.3f" % ext), key=key)
-                rid += 1
-            npairs += 1
+            for variant in ("plain", "linear scenario ramping across the end year"):
+                if variant != "plain" and not datapars:
+                    continue
+
+                def mkps():
+                    if variant == "plain":
+                        return ps
+                    cur = float(np.nan_to_num(m0.pops[0].get_par(datapars[0]).vals[2], nan=0.1))
+                    scen = at.ParameterScenario(name="s", interpolation="linear")
+                    scen.add(datapars[0], pops[0], [e0 - 2.0, e0 + ext / 2], [cur * 1.5 + 0.01, cur * 0.5 + 0.02])
+                    return scen.get_parset(ps, P)
+
+                rs = base if variant == "plain" else P.run_sim(mkps(), store_results=False)
+                P.settings.update_time_vector(end=e0 + ext)
+                rl = P.run_sim(mkps(), store_results=False)
+                P.settings.update_time_vector(end=e0)
+                a = outputs(rs, 0)
+                n = len(rs.model.t)
+                b = {k: v[:n] for k, v in outputs(rl, 0).items()}
+                for key in sorted(a):
+                    x, y = a[key], b.get(key, np.array([]))
+                    m_ = min(len(x), len(y))
+                    if key.startswith(("L:", "P:")):
+                        m_ -= 1
+                    x, y = x[:m_], y[:m_]
+                    ok = np.isfinite(x) & np.isfinite(y)
+                    records.append(dict(id=rid, tol="1e-12", a=FX.fixseq(x[ok]), b=FX.fixseq(y[ok])))
+                    index[rid] = dict(label=dict(model=name, intervention="end year extended by %.3f (%s)" % (ext, variant)), key=key)
+                    rid += 1
+                npairs += 1
         cov["paired_runs"] += npairs
     bad, states = C.validate_batch(["Big", "PairTrace"], "PairTrace", records, ndjson=True, timeout=3000)
     cov["states"] += states
